@@ -622,13 +622,35 @@ pub fn fail_at(msg: &mut Msg, k: &mut usize) -> bool {
 /// Constructive cases: every (reply mode x child outcome x reply outcome x depth 1..3) bucket.
 /// Constructive admin scenarios: contracts that administer themselves and whose migrate entry point changes their own
 /// record through sub-messages (admin hand-over, admin removal, a nested migration). `admined` = (contract, its admin).
-pub fn admin_matrix(admined: &[(String, String)], code_ids: &[u64], other_user: &str, tag_base: u32) -> Vec<Top> {
+pub fn admin_matrix(m: &ChainM, admined: &[(String, String)], code_ids: &[u64], other_user: &str, tag_base: u32) -> Vec<Top> {
     let mut out = vec![];
     let mut tag = tag_base;
     let mut next = || {
         tag += 1;
         tag
     };
+    // admins that are not addresses (the admin of an instantiate message is recorded as supplied): only the signer whose
+    // name is exactly that string is the admin; other non-addresses, other spellings and ordinary users are strangers
+    let mut n_contracts = m.st.contracts.len() as u64;
+    let upper = other_user.to_uppercase();
+    for (weird_admin, strangers) in [("not an address", vec!["none", "", other_user]), (upper.as_str(), vec![other_user, "not an address"])] {
+        let code = code_ids[0];
+        let addr = classic_address(m.api, code, n_contracts);
+        n_contracts += 1;
+        out.push(Top::Exec {
+            sender: other_user.to_string(),
+            msg: Msg::Inst { code_id: code, script: Box::new(Script { tag: next(), ..Default::default() }), funds: vec![], label: "weird-admin".into(), admin: Some(weird_admin.to_string()), salt: None },
+            via: ExecVia::Execute,
+        });
+        for s in strangers {
+            out.push(Top::Exec { sender: s.to_string(), msg: Msg::UpdateAdmin { addr: addr.clone(), admin: other_user.to_string() }, via: ExecVia::Execute });
+            out.push(Top::Exec { sender: s.to_string(), msg: Msg::Migrate { addr: addr.clone(), code_id: code_ids[1], script: Box::new(Script { tag: next(), ..Default::default() }) }, via: ExecVia::Execute });
+            out.push(Top::Exec { sender: s.to_string(), msg: Msg::ClearAdmin { addr: addr.clone() }, via: ExecVia::Execute });
+        }
+        out.push(Top::Exec { sender: weird_admin.to_string(), msg: Msg::Migrate { addr: addr.clone(), code_id: code_ids[1], script: Box::new(Script { tag: next(), ..Default::default() }) }, via: ExecVia::Execute });
+        out.push(Top::Exec { sender: weird_admin.to_string(), msg: Msg::ClearAdmin { addr: addr.clone() }, via: ExecVia::Execute });
+        out.push(Top::Exec { sender: weird_admin.to_string(), msg: Msg::ClearAdmin { addr }, via: ExecVia::Execute });
+    }
     let sub = |msg: Msg, mode: RMode, nonce: u32| Sub { id: nonce as u64, mode, payload: Payload::Raw(Binary::from(vec![1u8])), msg };
     for (i, (x, admin)) in admined.iter().enumerate().take(3) {
         let code_a = code_ids[i % code_ids.len()];
